@@ -271,9 +271,10 @@ fn build(wmode: &str, ops: &str) -> Result<(St, Abs), String> {
 fn chk_roundtrip(wmode: &str, rmode: &str, ops: &str) -> Result<(), String> {
     let (st, abs) = build(wmode, ops)?;
     let bytes = write_bytes(st)?;
-    let mut back = reopen(rmode == "async", bytes, FULL)?;
+    let mut back = reopen(rmode == "async", bytes.clone(), FULL)?;
     compare_content(&mut back, &abs.tiles, "after write and reopen")?;
     compare_settings(&back, &abs, true)?;
+    chk_shared_handle(rmode == "async", &bytes, &abs.tiles)?;
     // lookups by coordinates agree with lookups by id
     for (id, c) in abs.tiles.iter().take(40) {
         if let Ok((z, x, y)) = pmtiles2::util::zxy(*id) {
@@ -284,6 +285,59 @@ fn chk_roundtrip(wmode: &str, rmode: &str, ops: &str) -> Result<(), String> {
         }
     }
     Ok(())
+}
+/// Two archives opened over ONE stream handle that shares its position (as two `&File`s of one open file do): each
+/// lookup must fetch its own bytes wherever the other archive left the position; so must a save.
+fn chk_shared_handle(asy: bool, bytes: &[u8], want: &BTreeMap<u64, Vec<u8>>) -> Result<(), String> {
+    use crate::streams::{AShared, Core, Shared};
+    use futures::executor::block_on;
+    let ids: Vec<u64> = want.keys().copied().collect();
+    if ids.len() < 2 {
+        return Ok(());
+    }
+    let n = ids.len();
+    let picks: Vec<(u64, u64)> = (0..n.min(24)).map(|i| (ids[i * n / n.min(24)], ids[n - 1 - i * n / n.min(24)])).collect();
+    let bad = |who: &str, id: u64| format!("two archives share one stream handle: the lookup of tile {id} by the {who} archive returned other bytes than were written");
+    if asy {
+        let sh = AShared::new(Core::new(bytes.to_vec(), 0));
+        let mut a = block_on(pmtiles2::PMTiles::from_async_reader(sh.clone())).map_err(|e| format!("open over a shared handle: {e}"))?;
+        sh.0.lock().unwrap().pos = 0; // (an archive is read from where the handle stands)
+        let mut b = block_on(pmtiles2::PMTiles::from_async_reader(sh.clone())).map_err(|e| format!("second open over a shared handle: {e}"))?;
+        for (x, y) in &picks {
+            if block_on(a.get_tile_by_id_async(*x)).map_err(|e| e.to_string())?.as_ref() != want.get(x) {
+                return Err(bad("first", *x));
+            }
+            if block_on(b.get_tile_by_id_async(*y)).map_err(|e| e.to_string())?.as_ref() != want.get(y) {
+                return Err(bad("second", *y));
+            }
+        }
+        // the first archive reads a tile, the second reads the tile stored right behind it, the first is saved
+        let _ = block_on(a.get_tile_by_id_async(ids[0]));
+        let _ = block_on(b.get_tile_by_id_async(ids[n / 2]));
+        let mut out = futures::io::Cursor::new(Vec::new());
+        block_on(a.to_async_writer(&mut out)).map_err(|e| format!("saving an archive whose stream handle is shared: {e}"))?;
+        let mut re = reopen(true, out.into_inner(), FULL)?;
+        compare_content(&mut re, want, "after saving an archive whose stream handle was moved by another archive")
+    } else {
+        let sh = Shared::new(Core::new(bytes.to_vec(), 0));
+        let mut a = pmtiles2::PMTiles::from_reader(sh.clone()).map_err(|e| format!("open over a shared handle: {e}"))?;
+        sh.0.borrow_mut().pos = 0; // (an archive is read from where the handle stands)
+        let mut b = pmtiles2::PMTiles::from_reader(sh.clone()).map_err(|e| format!("second open over a shared handle: {e}"))?;
+        for (x, y) in &picks {
+            if a.get_tile_by_id(*x).map_err(|e| e.to_string())?.as_ref() != want.get(x) {
+                return Err(bad("first", *x));
+            }
+            if b.get_tile_by_id(*y).map_err(|e| e.to_string())?.as_ref() != want.get(y) {
+                return Err(bad("second", *y));
+            }
+        }
+        let _ = a.get_tile_by_id(ids[0]);
+        let _ = b.get_tile_by_id(ids[n / 2]);
+        let mut out = std::io::Cursor::new(Vec::new());
+        a.to_writer(&mut out).map_err(|e| format!("saving an archive whose stream handle is shared: {e}"))?;
+        let mut re = reopen(false, out.into_inner(), FULL)?;
+        compare_content(&mut re, want, "after saving an archive whose stream handle was moved by another archive")
+    }
 }
 fn seeded_ops(seed: u64, n: usize, big: bool, icomp: Option<Compression>) -> String {
     let mut rng = Rng::new(seed);
@@ -1464,6 +1518,29 @@ pub fn gen(prop: &str, rng: &mut Rng, quick: bool, st: &mut Stats) -> Option<Vec
                     let ops = seeded_spill_ops(rng.next(), *n, Compression::None);
                     c.push(format!("chk_hist_map {mode} {ops};s:{m}:{m}"));
                     st.bump("histories_with_leaf_directories");
+                }
+            }
+            // histories that start from a range-filtered open of an archive with leaf directories, the range touching
+            // the first / last id of a leaf
+            if prop == "C04" {
+                let bytes = crate::p_io::write_plain("sync", &seeded_spill_ops(rng.next(), 9000, Compression::None)).expect("write");
+                if let Ok(v) = spec::parse(&bytes, false) {
+                    let firsts: Vec<u64> = v.root.iter().filter(|e| e.run == 0).map(|e| e.id).collect();
+                    let ids: Vec<u64> = v.tile_entries.iter().map(|e| e.id + u64::from(e.run) - 1).collect();
+                    if firsts.len() >= 2 {
+                        let f1 = firsts[1];
+                        let last0 = ids.iter().copied().filter(|i| *i < f1).max().unwrap_or(0);
+                        let hexb = hex_bytes(&bytes);
+                        for (k, rg) in [
+                            (Bound::Included(last0), Bound::Unbounded), (Bound::Excluded(last0), Bound::Unbounded), (Bound::Included(f1), Bound::Unbounded),
+                            (Bound::Unbounded, Bound::Included(last0)), (Bound::Unbounded, Bound::Excluded(f1)), (Bound::Unbounded, Bound::Included(f1)),
+                            (Bound::Included(last0), Bound::Included(f1)), (Bound::Included(last0.saturating_sub(1)), Bound::Excluded(last0)),
+                        ].iter().enumerate() {
+                            let (mode, r) = if k % 2 == 0 { ("sync", "s") } else { ("async", "a") };
+                            c.push(format!("chk_hist_map {mode} o:{r}:{}:{hexb};l;n;g:{last0:x};g:{f1:x};a:{:x}:0102;r:{f1:x};l;s:{r}:{r}", range_tok(rg), last0 + 1));
+                            st.bump("histories_from_partial_open_at_leaf_boundaries");
+                        }
+                    }
                 }
             }
             // long random histories, optionally starting from a foreign archive
